@@ -17,7 +17,10 @@ CLAIMED = {
         "design_ref": "DESIGN.md section 3 (C19)",
         "note": "Trusts: shipped data files as reference; grid.angular degree tables as constants; NumPy/SciPy/zipfile; pre-emption only at Python line "
         "boundaries in angular.py/coulomb.py/atomgrid.py. Determinism of the simulator is self-tested on every run (same seed twice, "
-        "two worker counts, fresh interpreter under another PYTHONHASHSEED).",
+        "two worker counts, fresh interpreter under another PYTHONHASHSEED). Histories also contain: option variants of every atomic-grid method, a look at all "
+        "public properties, held interpolating functions, molecular grids assembled from live atomic grids, default (library-made) radial grids, inverse wrappers "
+        "around scale-inferring transforms, caller work buffers, object-address reuse for atomic and radial grids, lru_cache wrappers as process state, "
+        "block/chunk-size constants shrunk per run (DESIGN.md sections 2, 10).",
         "quick_timeout": 1800,
         "thorough_timeout": 14400,
     },
